@@ -105,3 +105,252 @@ theorem lineLess_ok (fuel : Nat) (li lj : Generated.Modfile.Line)
   cases loopRes 0 li.Token lj.Token with
   | ret v => simp
   | next k => simp [GoRtList.len_eq]
+
+/-! ### lineExcludeLess -/
+
+theorem idxL_zero {α : Type} (a : α) (as : List α) : idxL (a :: as) (0 : Int) = .ok a := by
+  simp [idxL]
+
+theorem idxL_one {α : Type} (a b : α) (as : List α) : idxL (a :: b :: as) (1 : Int) = .ok b := by
+  simp [idxL]
+
+theorem idxL_two {α : Type} (a b c : α) (as : List α) : idxL (a :: b :: c :: as) (2 : Int) = .ok c := by
+  simp [idxL]
+
+theorem idxL_three {α : Type} (a b c d : α) (as : List α) : idxL (a :: b :: c :: d :: as) (3 : Int) = .ok d := by
+  simp [idxL]
+
+theorem idxL_four {α : Type} (a b c d e : α) (as : List α) : idxL (a :: b :: c :: d :: e :: as) (4 : Int) = .ok e := by
+  simp [idxL]
+
+theorem len_ne_two_iff {α : Type} (s : List α) : (!decide (len s = (2 : Int))) = (s.length != 2) := by
+  rw [GoRtList.len_eq, Bool.eq_iff_iff]
+  simp
+  omega
+
+theorem length_two {α : Type} {s : List α} (h : s.length = 2) : ∃ a b, s = [a, b] := by
+  rcases s with _ | ⟨a, _ | ⟨b, _ | ⟨c, t⟩⟩⟩ <;> simp at h
+  exact ⟨a, b, rfl⟩
+
+theorem lineExcludeLess_ok (fuel : Nat) (li lj : Generated.Modfile.Line)
+    (hf1 : min li.Token.length lj.Token.length + 1 ≤ fuel)
+    (hf2 : 2 * max (li.Token.getD 1 []).length (lj.Token.getD 1 []).length ≤ fuel) :
+    Generated.Modfile.lineExcludeLess fuel li lj = .ok (Edit.lineExcludeLess li.Token lj.Token) := by
+  simp only [Generated.Modfile.lineExcludeLess, Edit.lineExcludeLess, len_ne_two_iff]
+  by_cases hc : (li.Token.length != 2 || lj.Token.length != 2) = true
+  · rw [if_pos hc, if_pos hc, lineLess_ok fuel li lj hf1]
+  · rw [if_neg hc, if_neg hc]
+    simp only [Bool.or_eq_true, bne_iff_ne, ne_eq, not_or, Decidable.not_not] at hc
+    obtain ⟨p, v, hi⟩ := length_two hc.1
+    obtain ⟨q, w, hj⟩ := length_two hc.2
+    rw [hi, hj] at hf2 ⊢
+    simp only [idxL_zero, idxL_one, GoRtList.ok_bind, List.headD_cons]
+    by_cases hpq : p = q
+    · have hb : (p != q) = false := by simp [hpq]
+      have hcmp := Tie.FnSemver.Compare_tie v w fuel (by simpa using hf2)
+      simp only [hpq, decide_true, Bool.not_true, Bool.false_eq_true, if_false, bne_self_eq_false]
+      skip
+      rw [hcmp]
+      simp
+    · have hb : (p != q) = true := by simp [hpq]
+      simp [hpq, hb, strLt]
+
+/-! ### lineRetractLess -/
+
+/-- the model's interval as the regenerated `VersionInterval` structure -/
+def ivOf (t : List Bytes) : Generated.Modfile.VersionInterval :=
+  { Low := (Edit.retractInterval t).low, High := (Edit.retractInterval t).high }
+
+theorem interval_ok (fuel : Nat) (l : Generated.Modfile.Line) :
+    Generated.Modfile.lineRetractLess_interval fuel l = .ok (ivOf l.Token) := by
+  unfold Generated.Modfile.lineRetractLess_interval ivOf
+  generalize l.Token = t
+  rcases t with _ | ⟨a, _ | ⟨b, _ | ⟨c, _ | ⟨d, _ | ⟨e, _ | ⟨f, t⟩⟩⟩⟩⟩⟩
+  · simp [len, Edit.retractInterval]; rfl
+  · simp [len, Edit.retractInterval, idxL_zero]
+  · simp [len, Edit.retractInterval]; rfl
+  · simp [len, Edit.retractInterval]; rfl
+  · simp [len, Edit.retractInterval]; rfl
+  · simp only [len, Edit.retractInterval, idxL_zero, idxL_one, idxL_two, idxL_three, idxL_four, GoRtList.ok_bind,
+      GoRtList.pure_eq_ok, List.length_cons, List.length_nil]
+    by_cases h1 : a = [91] <;> by_cases h2 : c = [44] <;> by_cases h3 : e = [93] <;> simp [h1, h2, h3] <;> rfl
+  · have : ¬ ((t.length : Int) + 1 + 1 + 1 + 1 + 1 + 1 = 1) := by omega
+    have h5 : ¬ ((t.length : Int) + 1 + 1 + 1 + 1 + 1 + 1 = 5) := by omega
+    simp [len, Edit.retractInterval, this, h5]; rfl
+
+theorem lineRetractLess_ok (fuel : Nat) (li lj : Generated.Modfile.Line)
+    (hf1 : 2 * max (Edit.retractInterval li.Token).low.length (Edit.retractInterval lj.Token).low.length ≤ fuel)
+    (hf2 : 2 * max (Edit.retractInterval li.Token).high.length (Edit.retractInterval lj.Token).high.length ≤ fuel) :
+    Generated.Modfile.lineRetractLess fuel li lj = .ok (Edit.lineRetractLess li.Token lj.Token) := by
+  simp only [Generated.Modfile.lineRetractLess, interval_ok, GoRtList.ok_bind, ivOf, Edit.lineRetractLess]
+  rw [Tie.FnSemver.Compare_tie _ _ fuel hf1]
+  simp only [GoRtList.ok_bind]
+  by_cases hc : Semver.compare (Edit.retractInterval li.Token).low (Edit.retractInterval lj.Token).low = 0
+  · rw [Tie.FnSemver.Compare_tie _ _ fuel hf2]
+    simp [hc]
+  · simp [hc]
+
+/-! ### checkCanonicalVersion -/
+
+open ModVerif.TieFnModule in
+/-- the `error` value of `checkCanonicalVersion` (Go `error` is `Option String`, `nil` = `none`; message texts are the
+    format strings, `&module.InvalidVersionError{…}` is `wrapErr "InvalidVersionError" …`):
+    * not canonical (or empty): "must be of the form v1.2.3" when the path has no major suffix, else
+      "must be of the form %s.2.3";
+    * canonical, path ok, but the version's major does not match the path's: CheckPathMajor's own error (`majorErr`,
+      "should be %s, not %s") when the path has a suffix, else "should be %s+incompatible (or module %s/%v)";
+    * `nil` otherwise. -/
+def canonErrOf (path vers : Bytes) : Option String :=
+  let pathMajor := (Module.splitPathVersion path).2.1
+  let ok := (Module.splitPathVersion path).2.2
+  if vers = [] ∨ vers ≠ Semver.canonicalVersion vers then
+    (if pathMajor = [] then wrapErr "InvalidVersionError" (some "must be of the form v1.2.3")
+     else wrapErr "InvalidVersionError" (some "must be of the form %s.2.3"))
+  else if ok = true ∧ Module.checkPathMajor vers pathMajor = false then
+    (if pathMajor = [] then wrapErr "InvalidVersionError" (some "should be %s+incompatible (or module %s/%v)")
+     else majorErr)
+  else none
+
+theorem majorErr_ne_none : TieFnModule.majorErr ≠ none := by
+  simp [TieFnModule.majorErr, wrapErr]
+
+theorem canonErrOf_none_iff (path vers : Bytes) :
+    canonErrOf path vers = none ↔ Edit.checkCanonicalVersion path vers = true := by
+  unfold canonErrOf Edit.checkCanonicalVersion
+  rcases hs : Module.splitPathVersion path with ⟨pre, maj, ok⟩
+  simp only []
+  by_cases hv : vers = [] ∨ vers ≠ Semver.canonicalVersion vers
+  · have hb : (vers.isEmpty || vers != Semver.canonicalVersion vers) = true := by
+      rcases hv with h | h
+      · simp [h]
+      · simp [h]
+    rw [if_pos hv, if_pos hb]
+    split <;> simp [wrapErr]
+  · have hb : ¬ ((vers.isEmpty || vers != Semver.canonicalVersion vers) = true) := by
+      intro h
+      apply hv
+      simp only [Bool.or_eq_true, List.isEmpty_iff, bne_iff_ne, ne_eq] at h
+      exact h
+    rw [if_neg hv, if_neg hb]
+    cases ok with
+    | false => simp
+    | true =>
+      cases hcp : Module.checkPathMajor vers maj with
+      | true => simp
+      | false =>
+        simp only [and_self, if_true, Bool.false_eq_true, iff_false]
+        split
+        · simp [wrapErr]
+        · exact majorErr_ne_none
+
+theorem checkCanonicalVersion_ok (fuel : Nat) (path vers : Bytes)
+    (hf1 : path.length + 1 ≤ fuel) (hf2 : 2 * vers.length ≤ fuel) :
+    Generated.Modfile.checkCanonicalVersion fuel path vers = .ok (canonErrOf path vers) := by
+  unfold Generated.Modfile.checkCanonicalVersion canonErrOf
+  rw [Tie.FnModule.SplitPathVersion_tie path fuel hf1]
+  rcases hs : Module.splitPathVersion path with ⟨pre, maj, ok⟩
+  simp only [GoRtList.ok_bind, Tie.FnModule.CanonicalVersion_tie vers fuel hf2, GoRtList.pure_eq_ok]
+  by_cases hv0 : vers = []
+  · subst hv0
+    simp only [decide_true, if_true, GoRtList.ok_bind, true_or]
+    by_cases hm : maj = [] <;> simp [hm]
+  · simp only [hv0, decide_false, Bool.false_eq_true, if_false, GoRtList.ok_bind, false_or]
+    by_cases hv : vers = Semver.canonicalVersion vers
+    · have h1 : (!decide (vers = Semver.canonicalVersion vers)) = false := by simp [← hv]
+      have h2 : ¬ (vers ≠ Semver.canonicalVersion vers) := by simpa using hv
+      rw [h1, if_neg h2]
+      simp only [Bool.false_eq_true, if_false]
+      cases ok with
+      | false => simp
+      | true =>
+        simp only [if_true, Tie.FnModule.CheckPathMajor_tie vers maj fuel hf2, GoRtList.ok_bind, true_and]
+        cases hcp : Module.checkPathMajor vers maj with
+        | true => simp
+        | false =>
+          have : (!(TieFnModule.majorErr).isNone) = true := by simp [TieFnModule.majorErr, wrapErr]
+          simp only [Bool.false_eq_true, if_false, this, if_true]
+          by_cases hm : maj = [] <;> simp [hm]
+    · have h1 : (!decide (vers = Semver.canonicalVersion vers)) = true := by simp [hv]
+      have h2 : vers ≠ Semver.canonicalVersion vers := hv
+      rw [h1, if_pos h2]
+      simp only [if_true]
+      by_cases hm : maj = [] <;> simp [hm]
+
+/-! ### the arguments of the error messages (dropped by the translator) cannot panic
+
+  `fmt.Errorf("must be of the form %s.2.3", module.PathMajorPrefix(pathMajor))` evaluates `PathMajorPrefix`, which
+  panics on a malformed suffix; `pathMajor` is the suffix `SplitPathVersion` returned and is non-empty on that branch. -/
+
+theorem split_not_ok_major_nil (path pre maj : Bytes) (h : Module.splitPathVersion path = (pre, maj, false)) :
+    maj = [] := by
+  unfold Module.splitPathVersion Module.splitGopkgIn at h
+  simp only [] at h
+  repeat' split at h
+  all_goals
+    (injection h with _ h2
+     injection h2 with h3 h4
+     first | exact h3.symm | cases h4)
+
+theorem pathMajorPrefix_ok_on_split (path : Bytes) (fuel : Nat)
+    (hf : 2 * (Module.splitPathVersion path).2.1.length ≤ fuel) :
+    ∃ m, Generated.Module.PathMajorPrefix fuel (Module.splitPathVersion path).2.1 = .ok m := by
+  rcases hs : Module.splitPathVersion path with ⟨pre, maj, ok⟩
+  rw [hs] at hf
+  rw [Tie.FnModule.PathMajorPrefix_tie maj fuel hf]
+  cases ok with
+  | false =>
+    have := split_not_ok_major_nil path pre maj hs
+    subst this
+    exact ⟨[], rfl⟩
+  | true =>
+    rcases Props.C06.pathMajorPrefix_no_panic_on_split path pre maj hs with ⟨_, h⟩ | ⟨n, _, h, _⟩
+    · rw [h]; exact ⟨_, rfl⟩
+    · rw [h]; exact ⟨_, rfl⟩
+
+/-! ### the fuel the driver passes (Drv/CmpOps.lean): `4 * (total bytes of both token lists) + 64` -/
+
+/-- total number of bytes of a token list -/
+def tokBytes (l : List Bytes) : Nat := (l.map List.length).sum
+
+theorem tokBytes_append (a b : List Bytes) : tokBytes (a ++ b) = tokBytes a + tokBytes b := by
+  simp [tokBytes]
+
+theorem length_le_tokBytes : ∀ (l : List Bytes), (∀ t ∈ l, t ≠ []) → l.length ≤ tokBytes l
+  | [], _ => by simp [tokBytes]
+  | t :: l, h => by
+    have h1 : t ≠ [] := h t (by simp)
+    have h2 := length_le_tokBytes l (fun x hx => h x (by simp [hx]))
+    have : 0 < t.length := List.length_pos_iff.mpr h1
+    simp only [tokBytes, List.map_cons, List.sum_cons, List.length_cons] at h2 ⊢
+    omega
+
+theorem mem_length_le_tokBytes : ∀ (l : List Bytes) (v : Bytes), v ∈ l → v.length ≤ tokBytes l
+  | [], v, h => by cases h
+  | t :: l, v, h => by
+    simp only [tokBytes, List.map_cons, List.sum_cons]
+    rcases List.mem_cons.mp h with rfl | h
+    · omega
+    · have := mem_length_le_tokBytes l v h
+      simp only [tokBytes] at this
+      omega
+
+theorem getD_length_le_tokBytes (l : List Bytes) (k : Nat) : (l.getD k []).length ≤ tokBytes l := by
+  rw [List.getD_eq_getElem?_getD]
+  cases h : l[k]? with
+  | none => simp
+  | some v =>
+    simp only [Option.getD_some]
+    exact mem_length_le_tokBytes l v (List.mem_of_getElem? h)
+
+theorem retractInterval_le_tokBytes (t : List Bytes) :
+    (Edit.retractInterval t).low.length ≤ tokBytes t ∧ (Edit.retractInterval t).high.length ≤ tokBytes t := by
+  rcases t with _ | ⟨a, _ | ⟨b, _ | ⟨c, _ | ⟨d, _ | ⟨e, _ | ⟨f, t⟩⟩⟩⟩⟩⟩ <;>
+    simp only [Edit.retractInterval] <;> (try split) <;>
+    simp [tokBytes] <;> omega
+
+theorem min_length_le (a b : List Bytes) (h : (∀ t ∈ a, t ≠ []) ∨ (∀ t ∈ b, t ≠ [])) :
+    min a.length b.length ≤ tokBytes (a ++ b) := by
+  rw [tokBytes_append]
+  rcases h with h | h
+  · have := length_le_tokBytes a h; omega
+  · have := length_le_tokBytes b h; omega
